@@ -86,8 +86,9 @@ example : collectGlobals [.push, .use ['g'], .insertLocal ['x'], .use ['x'], .po
 /-! ## Invariant -/
 
 /-- the protected names: configured globals, kept local-function names, collected globals,
-keywords (what `RenameProcessor::new` receives) -/
-def protectedNames (cfg : Config) (es : List Event) : List Name := avoidList cfg es ++ keywords
+keywords and `self` (the initial `avoid_identifier` of `RenameProcessor::new`) -/
+def protectedNames (cfg : Config) (es : List Event) : List Name :=
+  avoidList cfg es ++ keywords ++ [selfName]
 
 /-- **Invariant**, after any stream: the generated names held by the live dictionaries and the
 reuse pool are pairwise distinct (so the pool holds only dead names and no two live generated
@@ -227,8 +228,8 @@ configured global -/
 def HGlobals (cfg : Config) (es : List Event) : Bool :=
   cfg.detectGlobals || (globalUses es).all (fun x => cfg.globals.contains x)
 
-/-- `Hself`: the name `self` is not generated on this run (the code does not exclude it: `self`
-is the 4 771 500-th string of the permutator) -/
+/-- the name `self` is not generated on this run (`self` is the 4 771 500-th string of the
+permutator; before the fix of F09a the code did not exclude it and this was a hypothesis) -/
 def Hself (cfg : Config) (es : List Event) : Bool :=
   selfNotGenerated cfg.includeFunctions (renameRule cfg es)
 
@@ -245,56 +246,9 @@ theorem genOk_of_selfNotGenerated {incl : Bool} {out : List Event}
   · simp [hi] at h
   · exact h
 
-/-- The property at full strength: no hypothesis about `self`. -/
-def rename_preserves_binding_full : Prop :=
-  ∀ (cfg : Config) (es : List Event), HGlobals cfg es = true →
-    resolve (renameRule cfg es) = resolve es
-
-/-- state of the processor inside the method of `selfWitness`, before the locals -/
-def sMethod : State :=
-  (step (step (State.init [] false) .push).2 .insertSelf).2
-
-theorem sMethod_simple : Simple sMethod :=
-  ⟨rfl, _, _, rfl, by decide⟩
-
-/-- **The full statement is false of the code** (genuine defect, `known_findings.json` F-C09-self):
-in `function t:m() local x … local x return self end` with enough locals (about 4.73 million on
-the real code) one local is renamed `self` and captures the `self` that follows.  Witness
-`selfWitness (N+1)`, `N` obtained from the first-accepted-string property of the retry loop. -/
-theorem rename_preserves_binding_full_false : ¬ rename_preserves_binding_full := by
-  intro hfull
-  have hstart : permVal permStart ≤ permVal selfDigits := by decide
-  obtain ⟨N, gs, hN⟩ := self_generated ([] ++ keywords) filter_self_keywords
-    (permVal selfDigits + 1) permStart hstart (by omega)
-  have hH : HGlobals witnessCfg (selfWitness (N + 1)) = true := rfl
-  have h := hfull witnessCfg (selfWitness (N + 1)) hH
-  rw [resolve_selfWitness] at h
-  have hrun : renameRule witnessCfg (selfWitness (N + 1))
-      = .push :: .insertSelf :: ((gs ++ [selfName]).map .insertLocal ++ [.use selfName]) := by
-    unfold renameRule
-    rw [avoidList_selfWitness]
-    show run (State.init [] false) (selfWitness (N + 1)) = _
-    unfold selfWitness
-    simp only [run]
-    have h1 : (step (State.init [] false) .push).1 = .push := rfl
-    have h2 : (step (step (State.init [] false) .push).2 .insertSelf).1 = .insertSelf := rfl
-    rw [h1, h2]
-    have := run_locals (N + 1) sMethod sMethod_simple
-    have ha : sMethod.avoid = [] ++ keywords := rfl
-    have hp : sMethod.perm = permStart := rfl
-    rw [ha, hp, hN] at this
-    exact congrArg (fun l => Event.push :: Event.insertSelf :: l) this
-  rw [hrun] at h
-  unfold resolve at h
-  simp only [resolveFrom, useName, rMethod_eq] at h
-  rw [resolveFrom_locals, declL_append] at h
-  simp only [resolveFrom, useName, declL, lookup_declare_same, declL_next] at h
-  simp [rMethod] at h
-
-/-- **Renaming preserves the binding graph.**  For every event stream and configuration inside
-`HGlobals` and `Hself`: each use refers, in the output, to the same declaration (or is global,
-exactly as before), and the global uses keep their names. -/
-theorem rename_preserves_binding_partial (cfg : Config) (es : List Event)
+/-- the simulation instantiated at the rule, still carrying the hypothesis that `self` is not
+generated (discharged below: `self_never_generated`) -/
+theorem rename_preserves_binding_of_hself (cfg : Config) (es : List Event)
     (hg : HGlobals cfg es = true) (hs : Hself cfg es = true) :
     resolve (renameRule cfg es) = resolve es ∧ globalUses (renameRule cfg es) = globalUses es := by
   have hfn : (State.init (avoidList cfg es) cfg.includeFunctions).incl = false →
@@ -316,11 +270,10 @@ theorem rename_preserves_binding_partial (cfg : Config) (es : List Event)
   exact sim (protectedNames cfg es) es (State.init (avoidList cfg es) cfg.includeFunctions) [] 0
     (Good.init _ _ _) hfn hgl (genOk_of_selfNotGenerated hs)
 
-/-- `Hself` holds whenever `self` is protected — e.g. listed in `globals`, or used as a global
-somewhere in the file.  (This is also the proposed fix: always put `self` in
-`avoid_identifier`.) -/
-theorem hself_of_protected (cfg : Config) (es : List Event)
-    (h : selfName ∈ protectedNames cfg es) : Hself cfg es = true := by
+/-- `self` is protected, hence never generated: the former hypothesis `Hself` holds on every run
+(fix of F09a: `RenameProcessor::new` puts `self` into `avoid_identifier`). -/
+theorem self_never_generated (cfg : Config) (es : List Event) : Hself cfg es = true := by
+  have h : selfName ∈ protectedNames cfg es := by simp [protectedNames]
   unfold Hself selfNotGenerated
   rw [List.all_eq_true]
   intro o ho
@@ -343,12 +296,23 @@ theorem hself_of_protected (cfg : Config) (es : List Event)
       intro he; exact this hi (he ▸ h)
   | _ => rfl
 
-/-- With `self` among the configured globals the property holds at full strength. -/
-theorem rename_preserves_binding_self_listed (cfg : Config) (es : List Event)
-    (hg : HGlobals cfg es = true) (h : selfName ∈ cfg.globals) :
+/-- **Renaming preserves the binding graph** (full strength since the fix of F09a).  For every
+event stream and every configuration inside `HGlobals`: each use refers, in the output, to the
+same declaration (or is global, exactly as before), and the global uses keep their names. -/
+theorem rename_preserves_binding (cfg : Config) (es : List Event) (hg : HGlobals cfg es = true) :
     resolve (renameRule cfg es) = resolve es ∧ globalUses (renameRule cfg es) = globalUses es :=
-  rename_preserves_binding_partial cfg es hg
-    (hself_of_protected cfg es (by simp [protectedNames, avoidList, h]))
+  rename_preserves_binding_of_hself cfg es hg (self_never_generated cfg es)
+
+/-- regression for F09a: every member of the former witness family
+`function t:m() local x … (N times) return self end` keeps its binding graph — `self` still
+refers to the implicit parameter (declaration 0), for every `N`. -/
+theorem rename_self_witness_fixed (N : Nat) :
+    resolve (renameRule witnessCfg (selfWitness N)) = [some 0] := by
+  rw [(rename_preserves_binding witnessCfg (selfWitness N) rfl).1, resolve_selfWitness]
+
+example : resolve (renameRule witnessCfg (selfWitness 70)) = [some 0] ∧
+    (renameRule witnessCfg (selfWitness 70)).getLast? = some (.use selfName) := by
+  decide +kernel
 
 /-- non-vacuity: shadowing, a closure-like nested scope, reuse after a scope closes, a global
 named like the first generated name, a method with implicit `self` -/
@@ -361,9 +325,5 @@ def sampleStream : List Event :=
 example : HGlobals ⟨[], false, true⟩ sampleStream = true ∧ Hself ⟨[], false, true⟩ sampleStream = true ∧
     resolve sampleStream = [some 1, none, some 0, none, some 2, some 3, some 0, some 4] ∧
     renameRule ⟨[], false, true⟩ sampleStream ≠ sampleStream := by decide
-
-example : HGlobals ⟨[selfName], true, true⟩ sampleStream = true ∧
-    selfName ∈ (⟨[selfName], true, true⟩ : Config).globals := by
-  decide
 
 end DarkluaModel.C09
